@@ -2463,3 +2463,29 @@ for _P, _R in (("C01", "R1.19"), ("C05", "R5.16")):
         ).operator == Logic_operator.BRANCH:''',
       '''        if len(node.eventsets_incoming) > 1:''', _R,
       "MERGE decided from the number of predecessor sets (seed C01-f)")
+
+# ============================================================ model table (R4.8 / R1.20)
+for _P, _R in (("C04", "R4.8"), ("C01", "R1.20")):
+    M(_P, "eventset-counts-capped", EV,
+      "            self[event] = self.get(event, 0) + 1",
+      "            self[event] = 1", _R, "an observation forgets repetitions")
+    M(_P, "to-list-drops-counts", EV,
+      '''        return list(
+            event for event, count in self.items() for _ in range(count)
+        )''', "        return list(self.keys())", _R,
+      "listing an observation loses its multiplicities")
+    M(_P, "remove-type-keeps-sets-wrong-polarity", EV,
+      '''            for event_set in self.event_sets
+            if event_type not in event_set''',
+      '''            for event_set in self.event_sets
+            if event_type in event_set''', _R,
+      "removal keeps exactly the sets it should drop")
+    T(_P, "twin-to-list-loop", EV,
+      '''        return list(
+            event for event, count in self.items() for _ in range(count)
+        )''',
+      '''        out = []
+        for event, count in self.items():
+            for _ in range(count):
+                out.append(event)
+        return out''', "nested loops instead of a generator")
